@@ -487,6 +487,13 @@ func RunC07(c *Ctx) {
 		}
 		runHistory(c, "runHistory", idx, nil)
 	}
+	// table layouts built on purpose: tables holding ONLY log entries (or only refs) beneath
+	// a compacted range that holds tombstones for them
+	for idx := 0; idx < c.N(48, 400); idx++ {
+		if c.Mine(idx) && haveCompactRange && haveAutoCompactSwitch {
+			runSectionMixLayout(c, idx)
+		}
+	}
 	// records at the capacity of a block that become the first record of a compacted table
 	for idx := 0; idx < 24; idx++ {
 		if c.Mine(idx) {
@@ -527,6 +534,159 @@ func RunC07(c *Ctx) {
 			}
 		}
 	}
+}
+
+// runSectionMixLayout: a stack laid out table by table (auto-compaction off) so that the
+// tables beneath a compacted range hold only log entries, only refs, or both, and the range
+// holds tombstones for records living in those tables; then every contiguous range that does
+// not start at table 0 is compacted in turn (each on a fresh copy of the layout would be
+// costlier; ranges are compacted cumulatively, upper ranges first) and the view is compared
+// with the model after each. A tombstone may only disappear when the range includes table 0.
+func runSectionMixLayout(c *Ctx, idx int) {
+	r := c.Rep
+	rng := gen.NewRng(gen.Mix(c.Seed^0xc07a, int64(idx)))
+	gcfg := cfgForHistory(rng, idx)
+	cfg := rtx.Config(gcfg)
+	hs := gcfg.HashSize()
+	dir := c.TempDir(fmt.Sprintf("c07m-%d", idx))
+	defer os.RemoveAll(dir)
+	hc := histCase{Prop: c.Prop, Seed: c.Seed, Index: idx, Gen: "runSectionMixLayout", Cfg: gcfg.String()}
+	fail := func(props []string, sig, d string) {
+		h := hc
+		h.Detail = d
+		h.Ops = append([]string(nil), hc.Ops...)
+		r.Violate(props, sig, d, h)
+	}
+	st, err := stx.Open(dir, cfg)
+	if err != nil {
+		return
+	}
+	defer func() { stx.SafeClose(st) }()
+	setAutoCompact(st, false)
+	model := gen.NewModel(hs, gcfg.ExactLog)
+	names := []string{"refs/heads/a", "refs/heads/b", "refs/tags/c"}
+	// bottom tables: kind 0 = logs only, 1 = refs only, 2 = both
+	nbottom := 1 + rng.Intn(2)
+	id := 0
+	add := func(t *gen.Txn, what string) bool {
+		ui, err := stx.Apply(st, t)
+		hc.Ops = append(hc.Ops, fmt.Sprintf("%s (refs=%d logs=%d) -> ui=%d %v", what, len(t.Refs), len(t.Logs), ui, err))
+		if err != nil {
+			fail([]string{"C04"}, "sequential-add-failed|"+errClass(err), fmt.Sprintf("Add by the only handle failed: %v %s", err, PanicDetail(err)))
+			return false
+		}
+		model.Apply(t, ui)
+		return true
+	}
+	for b := 0; b < nbottom; b++ {
+		id++
+		t := &gen.Txn{ID: id}
+		kind := (idx + b) % 3
+		for _, n := range names {
+			if kind != 1 {
+				t.Logs = append(t.Logs, gen.Log{Name: n, New: gen.IDHash(id, 1, hs), User: "u", Email: "e@x", Time: 1000 + uint64(id), Msg: fmt.Sprintf("t%d", id)})
+			}
+			if kind != 0 {
+				t.Refs = append(t.Refs, gen.Ref{Name: n, Kind: gen.KVal, Value: gen.IDHash(id, 2, hs)})
+			}
+		}
+		if !add(t, []string{"bottom table: logs only", "bottom table: refs only", "bottom table: refs and logs"}[kind]) {
+			return
+		}
+	}
+	// middle: something unrelated (refs only or logs only), so that the range is mid-stack
+	id++
+	mid := &gen.Txn{ID: id}
+	if rng.Chance(0.5) {
+		mid.Refs = []gen.Ref{{Name: "refs/heads/m", Kind: gen.KVal, Value: gen.IDHash(id, 3, hs)}}
+	} else {
+		mid.Logs = []gen.Log{{Name: "refs/heads/m", New: gen.IDHash(id, 3, hs), User: "u", Email: "e@x", Time: 2000, Msg: "mid"}}
+	}
+	if !add(mid, "middle table") {
+		return
+	}
+	// tombstones for records of the bottom tables, in one or two tables
+	ntomb := 1 + rng.Intn(2)
+	for k := 0; k < ntomb; k++ {
+		id++
+		t := &gen.Txn{ID: id}
+		for _, n := range names {
+			if rng.Chance(0.6) {
+				if rf, ok := model.Refs[n]; ok && rf.Kind != gen.KDel {
+					t.Refs = append(t.Refs, gen.Ref{Name: n, Kind: gen.KDel})
+				}
+			}
+			var uis []uint64
+			for key, l := range model.Logs {
+				if key.Name == n && !l.Del {
+					uis = append(uis, key.UI)
+				}
+			}
+			sort.Slice(uis, func(i, j int) bool { return uis[i] < uis[j] })
+			for _, u := range uis {
+				if rng.Chance(0.6) {
+					t.Logs = append(t.Logs, gen.Log{Name: n, UI: u, Del: true})
+				}
+			}
+		}
+		gen.SortRefs(t.Refs)
+		gen.SortLogs(t.Logs)
+		if len(t.Refs)+len(t.Logs) == 0 {
+			t.Refs = []gen.Ref{{Name: "refs/heads/z", Kind: gen.KVal, Value: gen.IDHash(id, 4, hs)}}
+		}
+		if !add(t, "tombstone table") {
+			return
+		}
+	}
+	// a top table
+	id++
+	if !add(&gen.Txn{ID: id, Refs: []gen.Ref{{Name: "refs/heads/top", Kind: gen.KVal, Value: gen.IDHash(id, 5, hs)}}}, "top table") {
+		return
+	}
+	want := model.Dump()
+	// compact ranges [first,last] with first >= 1, upper ranges first; then everything
+	n := len(stx.Names(st))
+	type rg struct{ f, l int }
+	var ranges []rg
+	for f := n - 2; f >= 1; f-- {
+		ranges = append(ranges, rg{f, f + 1})
+	}
+	ranges = append(ranges, rg{0, -1})
+	for _, g := range ranges {
+		cur := len(stx.Names(st))
+		f, l := g.f, g.l
+		if l < 0 || l >= cur {
+			l = cur - 1
+		}
+		if f >= l {
+			continue
+		}
+		r.Evaluations++
+		err := rtx.Safe(func() error { _, e := compactRange(st, f, l); return e })
+		hc.Ops = append(hc.Ops, fmt.Sprintf("compact [%d,%d] of %d tables -> %v; list %v", f, l, cur, err, mustList(dir)))
+		if err != nil {
+			fail([]string{"C04"}, "fresh-compactrange-failed|"+errClass(err), fmt.Sprintf("compaction by the only handle failed: %v %s", err, PanicDetail(err)))
+			return
+		}
+		refs, logs, verr := stx.View(st)
+		if verr != nil {
+			fail([]string{"C07", "C10"}, "layout|view-error-after-compaction|"+errClass(verr), verr.Error())
+			return
+		}
+		if got := gen.Dump(refs, logs); got != want {
+			wr, wl := model.View()
+			fail([]string{"C07"}, "layout|view-mismatch-after-compaction|"+mismatchClass(wr, wl, refs, logs), fmt.Sprintf("after compacting [%d,%d]: %s", f, l, gen.DiffLines(want, got)))
+			return
+		}
+		if fd, _, err := stx.FreshView(dir, cfg); err != nil || fd != want {
+			fail([]string{"C07"}, "layout|fresh-view-mismatch-after-compaction", fmt.Sprintf("after compacting [%d,%d]: err %v %s", f, l, err, gen.DiffLines(want, fd)))
+			return
+		}
+		if f > 0 {
+			r.Nontrivial(rep.Hash("c07m", fmt.Sprint(c.Seed), fmt.Sprint(idx), fmt.Sprint(f, l)))
+		}
+	}
+	r.Count("section_mix_layouts", 1)
 }
 
 func sortedKeys(m map[string]bool) []string {
